@@ -62,6 +62,16 @@ class Scn:
             for _ in range(r.randint(1, 3)):
                 self.L.append("B poll")
 
+    def finish_by_exit(self, ctx=False):
+        """end the run with the backend's own exit drain (BackendWorker::_exit, wait_for_queues_to_empty_before_exit):
+        everything whose call has returned must be delivered by it; calls still blocked are not demanded"""
+        for t in self.threads:
+            self.L.append(f"T {t} go")
+        self.L.append("B exit")
+        self.L.append("mark qf")
+        if ctx:
+            self.L.append("q ctx")
+
     def finish(self, final=True, join_all=False, ctx=False, loggers=False):
         """let every blocked call complete, drain the backend, mark quiescence"""
         for _ in range(6):
